@@ -4,6 +4,7 @@ package main
 
 var propLevels = map[string]string{
 	"C15": "proof",
+	"C17": "proof",
 }
 
 func propLevel(p string) string {
@@ -15,6 +16,10 @@ func propLevel(p string) string {
 
 var propExplain = map[string]string{
 	"C15": "Every Currency operation is verified against the integers: contracts on the real methods of types/currency.go state the exact 128-bit result and the exact overflow/underflow/division-by-zero condition; weakest-precondition obligations are generated from go/ssa of the working tree and discharged by SMT for all 2^256 operand pairs (quoRem: 64-way split on the normalisation shift plus the residual case).",
+}
+
+func init() {
+	propExplain["C17"] = "RHP contract constructors and cost functions are verified against contracts taken from the property statement (exact charge, preserved totals, exact split, bounded rollover, funding identity, consensus value predicates, v1 tax equation); obligations are generated from go/ssa of the working tree and discharged by SMT for all inputs satisfying the stated preconditions."
 }
 
 func propExplanation(p string) string { return propExplain[p] }
